@@ -154,6 +154,158 @@ pub proof fn lemma_capsum_mono(q: int, r: int, a: int, b: int)
     assert(b * q >= a * q + (b - a)) by (nonlinear_arith) requires a <= b, q >= 1 {}
 }
 
+// ---------------------------------------------------------------- FA1 seat arithmetic (all PROVED)
+// a validator with stake s of total t gets floor(s*k/t) seats for sure; its stake minus what those seats account for stays
+pub open spec fn seats_of(s: int, t: int, k: int) -> int { if t > 0 { (s * k) / t } else { 0 } }
+pub open spec fn residual_of(s: int, t: int, k: int) -> int { s - (seats_of(s, t, k) * t) / k }
+pub open spec fn rem_of(s: int, t: int, k: int) -> int { (s * k) % t }
+pub open spec fn psum(f: spec_fn(int) -> int, n: int) -> int
+    decreases n
+{
+    if n <= 0 { 0 } else { psum(f, n - 1) + f(n - 1) }
+}
+pub open spec fn f_stake(st: Seq<int>) -> spec_fn(int) -> int { |i: int| st[i] }
+pub open spec fn f_seats(st: Seq<int>, t: int, k: int) -> spec_fn(int) -> int { |i: int| seats_of(st[i], t, k) }
+pub open spec fn f_rem(st: Seq<int>, t: int, k: int) -> spec_fn(int) -> int { |i: int| rem_of(st[i], t, k) }
+pub open spec fn f_res(st: Seq<int>, t: int, k: int) -> spec_fn(int) -> int { |i: int| residual_of(st[i], t, k) }
+pub open spec fn f_pos(st: Seq<int>, t: int, k: int) -> spec_fn(int) -> int { |i: int| if rem_of(st[i], t, k) > 0 { 1int } else { 0int } }
+
+// one validator: s*k = m*t + a with 0 <= a < t; the residual is not negative, and positive when a is
+pub proof fn lemma_fa1_elem(s: int, t: int, k: int)
+    requires 0 <= s <= t, t > 0, k > 0,
+    ensures
+        s * k == seats_of(s, t, k) * t + rem_of(s, t, k), 0 <= rem_of(s, t, k) < t,
+        0 <= seats_of(s, t, k) <= k,
+        0 <= residual_of(s, t, k) <= s,
+        rem_of(s, t, k) > 0 ==> residual_of(s, t, k) >= 1,
+        rem_of(s, t, k) == 0 ==> residual_of(s, t, k) == 0,
+{
+    let m = (s * k) / t;
+    let a = (s * k) % t;
+    assert(s * k >= 0) by (nonlinear_arith) requires s >= 0, k > 0 {}
+    assert(s * k == m * t + a && 0 <= a < t) by (nonlinear_arith) requires m == (s * k) / t, a == (s * k) % t, t > 0 {}
+    assert(m >= 0) by (nonlinear_arith) requires s * k >= 0, t > 0, m == (s * k) / t {}
+    assert(m <= k) by (nonlinear_arith) requires m * t + a == s * k, a >= 0, s <= t, t > 0, k > 0, m >= 0 {}
+    let q = (m * t) / k;
+    assert(m * t >= 0) by (nonlinear_arith) requires m >= 0, t > 0 {}
+    assert(q * k <= m * t && m * t < q * k + k && q >= 0) by (nonlinear_arith) requires q == (m * t) / k, k > 0, m * t >= 0 {}
+    // q*k <= m*t <= s*k  ==>  q <= s
+    assert(q <= s) by (nonlinear_arith) requires q * k <= m * t, m * t + a == s * k, a >= 0, k > 0 {}
+    if a > 0 {
+        // m*t < s*k  ==>  q*k < s*k  ==>  q < s
+        assert(q < s) by (nonlinear_arith) requires q * k <= m * t, m * t + a == s * k, a > 0, k > 0 {}
+    } else {
+        // m*t == s*k  ==>  q == s
+        assert(q >= s) by (nonlinear_arith) requires m * t < q * k + k, m * t == s * k, k > 0 {}
+    }
+}
+// sums over the first n validators (each stake within 0..=t): t * seats + remainders == k * stakes; every positive remainder
+// leaves a unit of residual stake; remainders are below t each
+pub proof fn lemma_fa1_sums(st: Seq<int>, t: int, k: int, n: int)
+    requires 0 <= n <= st.len(), t > 0, k > 0, forall|i: int| 0 <= i < st.len() ==> 0 <= #[trigger] st[i] <= t,
+    ensures
+        t * psum(f_seats(st, t, k), n) + psum(f_rem(st, t, k), n) == k * psum(f_stake(st), n),
+        psum(f_res(st, t, k), n) >= psum(f_pos(st, t, k), n) >= 0,
+        psum(f_rem(st, t, k), n) <= (t - 1) * psum(f_pos(st, t, k), n),
+        psum(f_rem(st, t, k), n) >= 0, psum(f_seats(st, t, k), n) >= 0, psum(f_res(st, t, k), n) >= 0,
+        psum(f_res(st, t, k), n) <= psum(f_stake(st), n),
+    decreases n
+{
+    if n > 0 {
+        lemma_fa1_sums(st, t, k, n - 1);
+        lemma_fa1_elem(st[n - 1], t, k);
+        let m = seats_of(st[n - 1], t, k); let a = rem_of(st[n - 1], t, k); let sm = psum(f_seats(st, t, k), n - 1);
+        let sp = psum(f_pos(st, t, k), n - 1);
+        assert(t * (sm + m) == t * sm + m * t) by (nonlinear_arith) {}
+        assert(k * (psum(f_stake(st), n - 1) + st[n - 1]) == k * psum(f_stake(st), n - 1) + st[n - 1] * k) by (nonlinear_arith) {}
+        assert((t - 1) * (sp + 1) == (t - 1) * sp + (t - 1)) by (nonlinear_arith) {}
+    }
+}
+// when all the stake is in (stakes sum to t): the seats fit the committee, and the residual stake is at least the number of
+// seats left (so the partition fallback can give every remaining seat a bin); no residual stake at all means no seat is left
+pub proof fn lemma_fa1_total(st: Seq<int>, t: int, k: int)
+    requires t > 0, k > 0, forall|i: int| 0 <= i < st.len() ==> 0 <= #[trigger] st[i] <= t, psum(f_stake(st), st.len() as int) == t,
+    ensures
+        0 <= psum(f_seats(st, t, k), st.len() as int) <= k,
+        psum(f_res(st, t, k), st.len() as int) >= k - psum(f_seats(st, t, k), st.len() as int),
+        psum(f_res(st, t, k), st.len() as int) == 0 ==> psum(f_seats(st, t, k), st.len() as int) == k,
+{
+    let n = st.len() as int;
+    lemma_fa1_sums(st, t, k, n);
+    let mm = psum(f_seats(st, t, k), n); let aa = psum(f_rem(st, t, k), n); let cc = psum(f_pos(st, t, k), n); let rr = psum(f_res(st, t, k), n);
+    let kp = k - mm;
+    assert(aa == t * kp) by (nonlinear_arith) requires t * mm + aa == k * t, kp == k - mm {}
+    assert(kp >= 0) by (nonlinear_arith) requires aa == t * kp, aa >= 0, t > 0 {}
+    if rr < kp {
+        // t*kp = aa <= (t-1)*cc <= (t-1)*rr <= (t-1)*(kp-1) < t*kp
+        assert(false) by (nonlinear_arith) requires aa == t * kp, aa <= (t - 1) * cc, 0 <= cc <= rr, rr <= kp - 1, t >= 1, kp >= 1 {}
+    }
+    if rr == 0 {
+        assert(kp == 0) by (nonlinear_arith) requires aa == t * kp, aa <= (t - 1) * cc, cc <= rr, rr == 0, cc >= 0, t >= 1, kp >= 0 {}
+    }
+}
+// the deterministic seats, in validator order: seats_of(stake_i) copies of validator i's id
+pub open spec fn req_seq(vals: Seq<ValidatorInfo>, t: int, k: int, n: int) -> Seq<ValidatorIndex>
+    decreases n
+{
+    if n <= 0 { Seq::empty() } else { req_seq(vals, t, k, n - 1) + Seq::new(seats_of(vals[n - 1].stake.0 as int, t, k) as nat, |j: int| vals[n - 1].id) }
+}
+pub proof fn lemma_req_seq_len(vals: Seq<ValidatorInfo>, t: int, k: int, n: int)
+    requires 0 <= n <= vals.len(), t > 0, k > 0, forall|i: int| 0 <= i < vals.len() ==> (#[trigger] vals[i]).stake.0 <= t,
+    ensures req_seq(vals, t, k, n).len() == psum(f_seats(spec_stakes(vals), t, k), n),
+    decreases n
+{
+    if n > 0 {
+        lemma_req_seq_len(vals, t, k, n - 1);
+        lemma_fa1_elem(vals[n - 1].stake.0 as int, t, k);
+    }
+}
+pub proof fn lemma_psum_is_sum_where(st: Seq<int>, n: int)
+    requires 0 <= n <= st.len(),
+    ensures psum(f_stake(st), n) == sum_where(st, n, all_true()),
+    decreases n
+{
+    if n > 0 { lemma_psum_is_sum_where(st, n - 1); }
+}
+
+// the truncated validator list FA1 hands to its fallback: same ids, residual stakes; its total is the sum of the residuals
+pub proof fn lemma_residual_total(vals: Seq<ValidatorInfo>, trunc: Seq<ValidatorInfo>, t: int, k: int)
+    requires
+        trunc.len() == vals.len(), t > 0, k > 0,
+        forall|i: int| 0 <= i < vals.len() ==> 0 <= (#[trigger] spec_stakes(vals)[i]) <= t,
+        forall|j: int| 0 <= j < vals.len() ==> (#[trigger] trunc[j]).id == vals[j].id,
+        forall|j: int| 0 <= j < vals.len() ==> (#[trigger] trunc[j]).stake.0 == residual_of(spec_stakes(vals)[j], t, k),
+    ensures
+        total_of(trunc) == psum(f_res(spec_stakes(vals), t, k), vals.len() as int),
+        forall|id: ValidatorIndex| #[trigger] is_member(trunc, id) ==> is_member(vals, id),
+        (forall|i: int| 0 <= i < trunc.len() ==> (#[trigger] trunc[i]).stake.0 == 0) ==> total_of(trunc) == 0,
+{
+    lemma_residual_prefix(vals, trunc, t, k, vals.len() as int);
+    assert forall|id: ValidatorIndex| #[trigger] is_member(trunc, id) implies is_member(vals, id) by {
+        let i = choose|i: int| 0 <= i < trunc.len() && #[trigger] trunc[i].id == id;
+        assert(vals[i].id == id);
+    }
+    if forall|i: int| 0 <= i < trunc.len() ==> (#[trigger] trunc[i]).stake.0 == 0 {
+        lemma_sum_zero(spec_stakes(trunc), trunc.len() as int);
+    }
+}
+pub proof fn lemma_residual_prefix(vals: Seq<ValidatorInfo>, trunc: Seq<ValidatorInfo>, t: int, k: int, n: int)
+    requires
+        trunc.len() == vals.len(), 0 <= n <= vals.len(),
+        forall|j: int| 0 <= j < vals.len() ==> (#[trigger] trunc[j]).stake.0 == residual_of(spec_stakes(vals)[j], t, k),
+    ensures sum_where(spec_stakes(trunc), n, all_true()) == psum(f_res(spec_stakes(vals), t, k), n),
+    decreases n
+{
+    if n > 0 { lemma_residual_prefix(vals, trunc, t, k, n - 1); }
+}
+pub proof fn lemma_sum_zero(st: Seq<int>, n: int)
+    requires 0 <= n <= st.len(), forall|i: int| 0 <= i < st.len() ==> #[trigger] st[i] == 0,
+    ensures sum_where(st, n, all_true()) == 0,
+    decreases n
+{
+    if n > 0 { lemma_sum_zero(st, n - 1); }
+}
+
 pub mod code {
 use super::*;
 
@@ -166,6 +318,46 @@ ensures
         r.0 as int == (if self.0 % divisor == 0 { (self.0 / divisor) as int } else { (self.0 / divisor) as int + 1 }),
 @*/
 }
+
+
+// ---------------------------------------------------------------- FA1: the deterministic seats (finding F28)
+/*@ extract src/disseminator/rotor/sampling_strategy.rs :: fn guaranteed_seats
+props C17
+ret r
+requires
+        stake.0 <= total_stake.0,
+ensures
+        // [C17.guaranteed_seats_are_the_exact_floor] floor(f * k) for the stake fraction f = stake / total, computed exactly
+        total_stake.0 > 0 ==> r as int == (stake.0 as int * k as int) / (total_stake.0 as int),
+        total_stake.0 == 0 ==> r == 0,
+        r <= k,
+before `(u128::from(`
+        proof {
+            let s = stake.0 as int; let t = total_stake.0 as int; let kk = k as int;
+            assert(s * kk <= t * kk) by (nonlinear_arith) requires s <= t, kk >= 0 {}
+            assert(s * kk <= 0xFFFF_FFFF_FFFF_FFFF * 0xFFFF_FFFF_FFFF_FFFF) by (nonlinear_arith) requires 0 <= s <= 0xFFFF_FFFF_FFFF_FFFF, 0 <= kk <= 0xFFFF_FFFF_FFFF_FFFF {}
+            assert((s * kk) / t <= kk) by (nonlinear_arith) requires s * kk <= t * kk, t > 0, kk >= 0, s >= 0 {}
+            assert((s * kk) / t >= 0) by (nonlinear_arith) requires t > 0, kk >= 0, s >= 0 {}
+        }
+@*/
+
+/*@ extract src/disseminator/rotor/sampling_strategy.rs :: fn stake_of_seats
+props C17
+ret r
+requires
+        k > 0, seats <= k,
+ensures
+        // [C17.seats_account_for_the_floor_of_their_stake] (so that taking it off the validator's stake never underflows, see the constructor)
+        r.0 as int == (seats as int * total_stake.0 as int) / (k as int),
+before `Stake::new(`
+        proof {
+            let m = seats as int; let t = total_stake.0 as int; let kk = k as int;
+            assert(m * t <= kk * t) by (nonlinear_arith) requires m <= kk, t >= 0 {}
+            assert(m * t <= 0xFFFF_FFFF_FFFF_FFFF * 0xFFFF_FFFF_FFFF_FFFF) by (nonlinear_arith) requires 0 <= m <= 0xFFFF_FFFF_FFFF_FFFF, 0 <= t <= 0xFFFF_FFFF_FFFF_FFFF {}
+            assert((m * t) / kk <= t) by (nonlinear_arith) requires m * t <= kk * t, kk > 0, t >= 0, m >= 0 {}
+            assert((m * t) / kk >= 0) by (nonlinear_arith) requires kk > 0, t >= 0, m >= 0 {}
+        }
+@*/
 
 impl PartitionSampler {
 /*@ extract src/disseminator/rotor/sampling_strategy.rs :: impl PartitionSampler/fn new
@@ -183,8 +375,8 @@ rewrite[R8] `WeightedIndex::new(stakes.iter().map(|s| s.inner())) .expect("valid
 rewrite[R10] `let mut current_bin = 0;` => `let mut current_bin: usize = 0;`
 rewrite[R10] `let mut bins = Vec::with_capacity(num_bins);` => `let mut bins: Vec<WeightedIndex> = Vec::with_capacity(num_bins);`
 requires
-        // "every validator set with positive stakes" whose total fits the stake type ...
-        forall|i: int| 0 <= i < validators@.len() ==> (#[trigger] validators@[i]).stake.0 > 0,
+        // every validator set whose total fits the stake type (a validator without stake - FA1 hands over residual stakes, some of
+        // them 0 - simply gets no share) ...
         total_of(validators@) <= u64::MAX,
         // ... and gives every bin at least one unit of stake (the documented panic otherwise; FA1 hands over a residual total
         // of at least one unit per remaining seat, see new_with_partition_fallback)
@@ -204,13 +396,13 @@ before `let mut current_bin: usize = 0;`
         proof {
             assert(nn * q + rr == tt && 0 <= rr < nn && q >= 1) by (nonlinear_arith)
                 requires nn > 0, tt >= nn, q == tt / nn, rr == tt % nn {}
-            assert forall|k: int| 0 <= k < stakes.len() implies stakes[k] > 0 by {}
+            assert forall|k: int| 0 <= k < stakes.len() implies stakes[k] >= 0 by {}
         }
 loop 0
         invariant
             vals == validators_random@ && stakes == spec_stakes(vals) && tt == total_of(vals) && q == small_bin && rr == num_large_bins && nn == num_bins && nn > 0,
             nn * q + rr == tt && 0 <= rr < nn && q >= 1 && tt <= u64::MAX,
-            forall|k: int| 0 <= k < stakes.len() ==> stakes[k] > 0,
+            forall|k: int| 0 <= k < stakes.len() ==> stakes[k] >= 0,
             verif_i <= vals.len(),
             current_bin < num_bins && bin_validators@.len() == num_bins && bin_stakes@.len() == num_bins,
             current_bin_stake.0 <= cap(q, rr, current_bin as int),
@@ -226,7 +418,7 @@ loop 1
         invariant
             vals == validators_random@ && stakes == spec_stakes(vals) && tt == total_of(vals) && q == small_bin && rr == num_large_bins && nn == num_bins && nn > 0,
             nn * q + rr == tt && 0 <= rr < nn && q >= 1 && tt <= u64::MAX,
-            forall|k: int| 0 <= k < stakes.len() ==> stakes[k] > 0,
+            forall|k: int| 0 <= k < stakes.len() ==> stakes[k] >= 0,
             0 < verif_i <= vals.len(),
             current_bin < num_bins && bin_validators@.len() == num_bins && bin_stakes@.len() == num_bins,
             current_bin_stake.0 <= cap(q, rr, current_bin as int),
@@ -238,7 +430,7 @@ loop 1
             forall|b: int| 0 <= b < current_bin ==> nonempty_pos((#[trigger] bin_stakes@[b])@),
             current_bin_stake.0 > 0 ==> nonempty_pos(bin_stakes@[current_bin as int]@),
         decreases stake.0,
-before `let stake_per_bin = if current_bin < num_large_bins {`
+before `let stake_per_bin =`
         proof { assert(rr > 0 ==> q + 1 <= tt) by (nonlinear_arith) requires nn * q + rr == tt, nn >= 1, q >= 1 {} }
 before `verif_push_at(&mut bin_validators, current_bin, v.id);`
         proof {
@@ -349,6 +541,144 @@ ensures
         r@.len() == self.k,
         // [C17.deterministic_seats_come_first_and_every_draw]
         r@.subrange(0, self.required_samples@.len() as int) == self.required_samples@,
+@*/
+}
+
+
+// R8/R9 wrappers for the constructor
+#[verifier::external_body]
+pub fn verif_clone_validators(v: &Vec<ValidatorInfo>) -> (r: Vec<ValidatorInfo>)      // validators.clone()
+    ensures r@ == v@
+{ unimplemented!() }
+// `required_samples.extend((0..samples).map(|_| v.id))`: `samples` copies of the id are appended
+#[verifier::external_body]
+pub fn verif_extend_repeat(out: &mut Vec<ValidatorIndex>, id: ValidatorIndex, samples: u64)
+    ensures final(out)@ == old(out)@ + Seq::new(samples as nat, |j: int| id)
+{ unimplemented!() }
+// `validators_truncated_stake.iter().all(|v| v.stake == Stake::new(0))`
+#[verifier::external_body]
+pub fn verif_all_zero(v: &Vec<ValidatorInfo>) -> (r: bool)
+    ensures r == (forall|i: int| 0 <= i < v@.len() ==> (#[trigger] v@[i]).stake.0 == 0)
+{ unimplemented!() }
+
+impl FaitAccompli1Sampler {
+    // what sample_quorum relies on: the deterministic seats plus the fallback's bins make up k, the fallback is well formed
+    pub open spec fn wf(&self) -> bool {
+        &&& self.required_samples@.len() <= self.k && self.fallback_sampler.bins@.len() == self.k - self.required_samples@.len()
+        &&& self.fallback_sampler.bins@.len() == self.fallback_sampler.bin_validators@.len()
+        &&& forall|b: int| 0 <= b < self.fallback_sampler.bins@.len() ==> (#[trigger] self.fallback_sampler.bins@[b]).spec_len() == self.fallback_sampler.bin_validators@[b]@.len()
+    }
+
+/*@ extract src/disseminator/rotor/sampling_strategy.rs :: impl FaitAccompli1Sampler<PartitionSampler>/fn new_with_partition_fallback
+props C17 C16
+ret r
+rewrite[R8] `validators.iter().map(|v| v.stake).sum()` => `verif_total_stake(&validators)`
+rewrite[R9] `validators.clone()` => `verif_clone_validators(&validators)`
+rewrite[R4] `for v in &mut validators_truncated_stake {` => `let mut verif_i: usize = 0; while verif_i < validators_truncated_stake.len() { let ghost trunc0 = validators_truncated_stake@; let v = &mut validators_truncated_stake[verif_i]; verif_i += 1;`
+rewrite[R8] `required_samples.extend((0..samples).map(|_| v.id));` => `verif_extend_repeat(&mut required_samples, v.id, samples);`
+rewrite[R8] `validators_truncated_stake .iter() .all(|v| v.stake == Stake::new(0))` => `verif_all_zero(&validators_truncated_stake)`
+rewrite[R10] `let mut required_samples = Vec::new();` => `let mut required_samples: Vec<ValidatorIndex> = Vec::new();`
+requires
+        // "every validator set with positive stakes" whose total fits the stake type, any committee size
+        validators@.len() > 0,
+        forall|i: int| 0 <= i < validators@.len() ==> (#[trigger] validators@[i]).stake.0 > 0,
+        total_of(validators@) <= u64::MAX,
+        k > 0,
+ensures
+        // [C17.fa1_can_be_constructed_and_is_well_formed C16.fa1_can_be_constructed_and_is_well_formed] no arithmetic overflows or
+        // underflows, no bin of the fallback stays empty, and sample_quorum's preconditions hold: k seats on every draw
+        r.wf() && r.k == k,
+        // [C17.validator_with_fraction_f_gets_floor_fk_seats] the deterministic seats: floor(stake_i * k / total) for validator i
+        r.required_samples@ == req_seq(validators@, total_of(validators@), k as int, validators@.len() as int),
+        // the fallback draws members of the set only
+        r.fallback_sampler.wf(validators@),
+after `let total_stake: Stake = verif_total_stake(&validators);`
+        let ghost vals = validators@;
+        let ghost st = spec_stakes(vals);
+        let ghost tt = total_stake.0 as int;
+        let ghost kk = k as int;
+        proof {
+            lemma_psum_is_sum_where(st, st.len() as int);
+            assert forall|i: int| 0 <= i < st.len() implies #[trigger] st[i] == vals[i].stake.0 && st[i] > 0 by {}
+            assert(tt > 0) by {
+                lemma_partial_le_total(st, 1);
+                assert(all_true()(0));
+                assert(sum_where(st, 0, all_true()) == 0);
+                assert(sum_where(st, 1, all_true()) == sum_where(st, 0, all_true()) + st[0]);
+            }
+            assert forall|i: int| 0 <= i < st.len() implies 0 <= #[trigger] st[i] <= tt by {
+                lemma_partial_le_total(st, i + 1);
+                lemma_sum_nonneg(st, i, all_true());
+            }
+            lemma_fa1_total(st, tt, kk);
+            assert forall|i: int| 0 <= i < vals.len() implies (#[trigger] vals[i]).stake.0 <= tt by { assert(st[i] == vals[i].stake.0); }
+        }
+loop 0
+        invariant
+            vals == validators@ && st == spec_stakes(vals) && tt == total_stake.0 && kk == k && tt > 0 && kk > 0,
+            forall|i: int| 0 <= i < st.len() ==> 0 <= #[trigger] st[i] <= tt,
+            psum(f_stake(st), st.len() as int) == tt,
+            forall|i: int| 0 <= i < vals.len() ==> (#[trigger] vals[i]).stake.0 <= tt,
+            verif_i <= vals.len() && validators_truncated_stake@.len() == vals.len(),
+            required_samples@ == req_seq(vals, tt, kk, verif_i as int),
+            required_samples@.len() == psum(f_seats(st, tt, kk), verif_i as int),
+            forall|j: int| 0 <= j < vals.len() ==> (#[trigger] validators_truncated_stake@[j]).id == vals[j].id,
+            forall|j: int| 0 <= j < verif_i ==> (#[trigger] validators_truncated_stake@[j]).stake.0 == residual_of(st[j], tt, kk),
+            forall|j: int| verif_i <= j < vals.len() ==> (#[trigger] validators_truncated_stake@[j]).stake.0 == st[j],
+        decreases vals.len() - verif_i,
+before `let samples = guaranteed_seats(v.stake, total_stake, k);`
+        let ghost iv = (verif_i - 1) as int;
+        proof {
+            lemma_fa1_elem(st[iv], tt, kk);
+            lemma_fa1_sums(st, tt, kk, iv + 1);
+            lemma_fa1_sums(st, tt, kk, st.len() as int);
+        }
+after `verif_extend_repeat(&mut required_samples, v.id, samples);`
+        proof {
+            assert(samples as int == seats_of(st[iv], tt, kk));
+            lemma_req_seq_len(vals, tt, kk, iv + 1);
+            assert(validators_truncated_stake@.len() == trunc0.len());
+            assert forall|j: int| 0 <= j < vals.len() && j != iv implies #[trigger] validators_truncated_stake@[j] == trunc0[j] by {}
+            assert(validators_truncated_stake@[iv].id == trunc0[iv].id);
+            assert(validators_truncated_stake@[iv].stake.0 == residual_of(st[iv], tt, kk));
+        }
+before `let all_zero = verif_all_zero(&validators_truncated_stake);`
+        proof {
+            lemma_fa1_total(st, tt, kk);
+            lemma_req_seq_len(vals, tt, kk, vals.len() as int);
+        }
+before `let fallback_sampler = if all_zero {`
+        let ghost trunc = validators_truncated_stake@;
+        proof {
+            // the residual total: at least one unit per seat that is left (and no seat is left when it is zero)
+            lemma_residual_total(vals, trunc, tt, kk);
+            lemma_fa1_sums(st, tt, kk, st.len() as int);
+            lemma_fa1_total(st, tt, kk);
+        }
+@*/
+}
+
+impl FaitAccompli1Sampler {
+// Canary: the real constructor under a false contract (claims nobody ever gets a deterministic seat); MUST fail.
+/*@ extract src/disseminator/rotor/sampling_strategy.rs :: impl FaitAccompli1Sampler<PartitionSampler>/fn new_with_partition_fallback
+as canary_new_with_partition_fallback
+expect-fail
+ret r
+rewrite[R8] `validators.iter().map(|v| v.stake).sum()` => `verif_total_stake(&validators)`
+rewrite[R9] `validators.clone()` => `verif_clone_validators(&validators)`
+rewrite[R4] `for v in &mut validators_truncated_stake {` => `let mut verif_i: usize = 0; while verif_i < validators_truncated_stake.len() { let v = &mut validators_truncated_stake[verif_i]; verif_i += 1;`
+rewrite[R8] `required_samples.extend((0..samples).map(|_| v.id));` => `verif_extend_repeat(&mut required_samples, v.id, samples);`
+rewrite[R8] `validators_truncated_stake .iter() .all(|v| v.stake == Stake::new(0))` => `verif_all_zero(&validators_truncated_stake)`
+rewrite[R10] `let mut required_samples = Vec::new();` => `let mut required_samples: Vec<ValidatorIndex> = Vec::new();`
+requires
+        validators@.len() > 0,
+        total_of(validators@) <= u64::MAX,
+        k > 0,
+ensures
+        r.required_samples@.len() == 0,
+loop 0
+        invariant true,
+        decreases validators_truncated_stake@.len() - verif_i,
 @*/
 }
 
